@@ -188,6 +188,9 @@ class Interp:
         return st.alloc(Arr((len(items),), lambda i, items=items: self._pick(items, i), kind="list", etype=et), "arr")
 
     def e_Dict(self, node, st):
+        if not node.keys:
+            # empty literal: a dict with symbolic (string) keys and scalar values
+            return st.alloc(DictV(lambda k: False, lambda k: 0, "int", 0), "dict")
         d = {}
         for k, v in zip(node.keys, node.values):
             kv = self.eval(k, st)
@@ -305,8 +308,12 @@ class Interp:
             if isinstance(o, Opt):
                 return o.is_none
             return False
-        if isinstance(a, Opt) or isinstance(b, Opt):
-            raise Unsupported("identity on optional values")
+        if isinstance(a, Opt) and isinstance(b, Opt):
+            return zor(zand(a.is_none, b.is_none), zand(znot(a.is_none), znot(b.is_none), self.identical(a.val, b.val, st)))
+        if isinstance(a, Opt):
+            return zand(znot(a.is_none), self.identical(a.val, b, st))
+        if isinstance(b, Opt):
+            return zand(znot(b.is_none), self.identical(a, b.val, st))
         if isinstance(a, Opaque) and isinstance(b, Opaque):
             return a.term == b.term
         if isinstance(a, Obj) and isinstance(b, Obj):
@@ -330,6 +337,10 @@ class Interp:
             return zand(znot(a.is_none), self.equal(a.val, b, st))
         if isinstance(b, Opt):
             return zand(znot(b.is_none), self.equal(a, b.val, st))
+        if isinstance(a, VStr) and is_num(b) and not isinstance(b, float):
+            b = VStr(b)   # quantified string variables are plain ints (string ids)
+        if isinstance(b, VStr) and is_num(a) and not isinstance(a, float):
+            a = VStr(a)
         if isinstance(a, VStr) and isinstance(b, VStr):
             if isinstance(a.sid, int) and isinstance(b.sid, int):
                 return a.sid == b.sid
@@ -373,6 +384,8 @@ class Interp:
         raise Unsupported(f"equality of {type(a).__name__} and {type(b).__name__}")
 
     def contains(self, container, item, st):
+        if isinstance(container, DictV):
+            return container.has(item)
         if isinstance(container, Ref) and container.what == "dict":
             return st.heap[container.rid].has(item)
         if isinstance(container, Ref) and container.what == "cdict":
@@ -426,6 +439,8 @@ class Interp:
     def scalar_binop(self, op, a, b, st, node=None):
         if not (is_num(a) or is_boolish(a)) or not (is_num(b) or is_boolish(b)):
             raise Unsupported(f"arithmetic on {type(a).__name__}, {type(b).__name__}")
+        if isinstance(op, (ast.BitOr, ast.BitAnd)) and is_boolish(a) and is_boolish(b):
+            return zor(a, b) if isinstance(op, ast.BitOr) else zand(a, b)
         conc = isinstance(a, (int, float)) and isinstance(b, (int, float))
         if isinstance(op, ast.Add):
             return a + b if conc else _ar(lambda x, y: x + y, a, b)
@@ -456,6 +471,10 @@ class Interp:
             pq = z3.If(y > 0, q, z3.If(r == 0, q, q - 1))
             pr = z3.If(y > 0, r, z3.If(r == 0, r, r + y))
             return pq if isinstance(op, ast.FloorDiv) else pr
+        if isinstance(op, (ast.BitOr, ast.BitAnd)):
+            if is_boolish(a) and is_boolish(b):
+                return zor(a, b) if isinstance(op, ast.BitOr) else zand(a, b)
+            raise Unsupported("bitwise operator on non-bool operands")
         if isinstance(op, ast.Pow):
             if conc:
                 return a ** b
@@ -482,7 +501,14 @@ class Interp:
         fr = self.frame
         if isinstance(base, GhostNS):
             if attr not in st.ghost:
-                raise Unsupported(f"undeclared ghost variable {attr}")
+                if attr not in self.reg["ghosts"]:
+                    raise Unsupported(f"undeclared ghost variable {attr}")
+                st.ghost[attr] = fresh(self.reg["ghosts"][attr], "ghost." + attr, st, self)
+                if self.frame is not None and self.frame.pre is not None and attr not in self.frame.pre.ghost:
+                    self.frame.pre.ghost[attr] = st.ghost[attr]
+                    v = st.ghost[attr]
+                    if isinstance(v, Ref):
+                        self.frame.pre.heap[v.rid] = st.heap[v.rid]
             return st.ghost[attr]
         if isinstance(base, Opt):
             self.safety(st, znot(base.is_none), "receiver-not-None", node)
@@ -616,9 +642,9 @@ class Interp:
         if isinstance(base, Opt):
             self.safety(st, znot(base.is_none), "subscript-not-None", node)
             base = base.val
-        if isinstance(base, Ref) and base.what == "dict":
+        if isinstance(base, DictV) or (isinstance(base, Ref) and base.what == "dict"):
             k = self.eval(sl, st)
-            d = st.heap[base.rid]
+            d = base if isinstance(base, DictV) else st.heap[base.rid]
             self.safety(st, d.has(k), "key-present", node)
             return d.get(k)
         if isinstance(base, Ref) and base.what == "cdict":
